@@ -34,6 +34,11 @@ Every step (and its signal) carries a display of one of five shapes (none / name
 only / all); no outcome may depend on it (Steps.tla: DisplayBlind).  cfg steps_display*: every single call of the
 universe - unknown step and signal IDs through both entry points included - on a schema of every assignment of a
 shape to each step; the random sessions draw the displays at random and log them for StepsTrace.
+The schema's layout is a further attribute (Steps.tla: layout): the set of registered steps (all three, or exactly
+one: a call on any other ID is an unknown step - the concrete unknown IDs are "nope", "", another letter case, a
+trailing space, "step.output") and, per step, whether the signal's own ID equals its registration key; signal calls
+name the key (handler runs), the signal's own differing ID or neither (errors, never panics).  cfg steps_display*
+enumerates every single call on every layout as well.
 The orchestrator hands
 the concrete forms of each raw-input class and handler behaviour out round-robin, so every form in the harness's
 tables is exercised.
@@ -106,6 +111,13 @@ def assign_variants(ctx, cases, counters):
         first_short = True
         for c in case["calls"]:
             k = call_key(c, case.get("mapsteps", ()), case.get("shortsteps", ()))
+            reg = case.get("reg") or []
+            if c["step"] == "nostep":
+                # the concrete unknown step IDs ("", another letter case, ...) are handed out separately for the
+                # schemas with exactly one registered step and for the others
+                k += ":reg%d" % min(len(reg), 2)
+            elif reg and c["step"] not in reg:
+                k += ":unregistered"
             if c["step"] in case.get("shortsteps", ()):
                 # the first call on a single-property step picks among the forms of ALL shapes (and so decides the
                 # session's shape), later ones among the forms of that shape: counted separately
@@ -187,6 +199,12 @@ def consume(ctx, cases, results, counts):
             elif case.get("racy"):
                 counts["raced"] += 1
             counts["timeouts"] += r.get("timeouts", 0)
+            reg = case.get("reg") or []
+            sigregs = set((case.get("sigreg") or {}).values())
+            if (reg and len(reg) < 3) or "differ" in sigregs:
+                for c in case["calls"]:
+                    ctx.distinct.add("layout/reg%d/%s/%s%s" % (len(reg), "+".join(sorted(sigregs)), call_key(c),
+                                                              "" if c["step"] in reg or c["step"] == "nostep" else ":unregistered"))
             shapes = sorted(set((case.get("display") or {}).values()) - {"none"})
             if shapes:
                 for c in case["calls"]:
